@@ -375,11 +375,13 @@ def main():
             (base / "pk" / pk / "templates").mkdir(parents=True)
             (base / "pk" / pk / "__init__.py").write_text("")
             (base / "pk" / pk / "templates/__init__.py").write_text("")
-            for nm in ("base.j2", "sub/x.j2", "linked/y.j2"):
+            for nm in ("base.j2", "sub/x.j2", "linked/y.j2", "blank.j2", "spaces.j2"):
                 p = base / "pk" / pk / "templates" / nm
                 p.parent.mkdir(parents=True, exist_ok=True)
                 p.write_text("PKG")
             (base / "fs/base.j2").write_text("USER")
+            (base / "fs/blank.j2").write_text("")  # a user template wins whatever its contents: also when it is empty
+            (base / "fs/spaces.j2").write_text("  \n")
             (base / "fs/sub/x.j2").write_text("USER")
             (base / "real/y.j2").write_text("USER")
             (base / "fs/linked").symlink_to(base / "real")
@@ -388,6 +390,10 @@ def main():
             try:
                 ld = DSDLTemplateLoader(templates_dirs=[base / "fs"], package_name_for_templates=pk)
                 env = Environment()
+                for nm, want in (("blank.j2", ""), ("spaces.j2", "  \n")):
+                    src = ld.get_source(env, nm)[0]
+                    if src != want:
+                        return {"input": {"template": nm, "user_template_text": want}, "why": f"get_source({nm!r}) served {src!r} although the user directory holds an (empty/blank) template of that name"}
                 for nm in ("base.j2", "./base.j2", "sub/x.j2", "linked/y.j2"):
                     src = ld.get_source(env, nm)[0]
                     if src != "USER":
